@@ -14,6 +14,9 @@ pub enum Call {
     Reconf(usize, usize, usize),
     /// the caller replaces the seed (`seed` field) and toggles the two opt-in flags
     Reseed(u64, bool, bool),
+    /// the caller scribbles over the public scratch state before the next call: objects (a self-containing list
+    /// among them) on `state.stack`, entries in `state.memo`, `state.proto_emitted` set, bytes in `output`
+    Dirty(u8),
 }
 
 impl Call {
@@ -24,6 +27,7 @@ impl Call {
             Call::Reset => "r".to_string(),
             Call::Reconf(v, a, b) => format!("c{}:{}:{}", v, a, b),
             Call::Reseed(sd, e, b) => format!("s{}:{}:{}", sd, *e as u8, *b as u8),
+            Call::Dirty(k) => format!("d{}", k),
         }
     }
 }
@@ -38,6 +42,7 @@ pub fn parse_calls(s: &str) -> Vec<Call> {
                 let mut it = t[1..].split(':').map(|x| x.parse::<usize>().unwrap_or(0));
                 Call::Reconf(it.next().unwrap_or(0), it.next().unwrap_or(0), it.next().unwrap_or(0))
             }
+            b'd' => Call::Dirty(t[1..].parse::<u8>().unwrap_or(0)),
             b's' => {
                 let mut it = t[1..].split(':');
                 let sd = it.next().and_then(|x| x.parse::<u64>().ok()).unwrap_or(0);
@@ -66,6 +71,25 @@ fn do_call(c: &Case, g: &mut pickle_fuzzer::Generator, call: &Call) -> Option<Re
             g.seed = Some(*sd);
             g.allow_ext_opcodes = *e;
             g.allow_buffer_opcodes = *b;
+            None
+        }
+        Call::Dirty(k) => {
+            use pickle_fuzzer::verif;
+            for ch in "lMd(i".chars().cycle().take(*k as usize + 1) {
+                if let Some(o) = verif::object_of_code(if ch == '(' { 'M' } else { ch }) {
+                    g.state.stack.push(o);
+                }
+            }
+            // a list that contains itself, left on the stack
+            verif::apply(g, 0x5d, None);
+            verif::apply(g, 0x32, None);
+            verif::apply(g, 0x61, None);
+            for i in 0..(*k as usize) {
+                // PUT <i*7>: a memo entry (a copy of the self-containing list) under a scattered key
+                verif::apply(g, 0x70, Some(format!("{}\n", i * 7).as_bytes()));
+            }
+            g.state.proto_emitted = k % 2 == 0;
+            g.output.extend_from_slice(b"stale bytes.");
             None
         }
         Call::Gen => {
@@ -222,6 +246,11 @@ pub fn cmd_hist(args: &[String]) {
                 calls.push(Call::Reseed(rng.next() % 100000, rng.coin(), rng.coin()));
             }
             calls.push(if rng.coin() { Call::Gen } else { Call::Arb(rng.bytes(40)) });
+        }
+        // a caller that scribbles over the public scratch state right before a call
+        if id % 6 == 1 {
+            let pos = calls.iter().rposition(|x| matches!(x, Call::Gen | Call::Arb(_))).unwrap_or(calls.len());
+            calls.insert(pos, Call::Dirty(rng.below(9) as u8));
         }
         if !calls.iter().any(|x| matches!(x, Call::Gen | Call::Arb(_))) {
             calls.push(Call::Gen);
